@@ -12,6 +12,8 @@ import PkVerif.Gen.Facts
     json <hex>                json.Unmarshal into map[string]any                         -> err | ok k=kind,… (sorted)
     sign <unsigned> <armored> <unixtime>  Sign (the time only matters to the real code);
                               <armored> is what openpgp.ArmoredDetachSign returns  -> ok <doc> | err <class>
+    docp <pre> <seed> <len> <suf>   like doc, the document being pre ++ pad(seed,len) ++ suf       -> ok <len>
+    signp <pre> <seed> <len> <suf> <armored> <unixtime>   like sign on pre ++ pad ++ suf          -> ok <len>:<fnv> | err <class>
     v <mut> <fact>            NewVerificationRequest + Verify of the mutated base document;
                               mut = b | s<pos>:<byte> | i<pos>:<byte> | d<pos> | x<hex>;
                               fact = - | <cls>@<digest>: "the OpenPGP check of the (signer, BP,
@@ -75,6 +77,10 @@ def decNat? (w : String) : Option Nat :=
 def decInt? (w : String) : Bool :=
   (decNat? w).isSome || (match w.toList with | '-' :: r => (decNat? (String.ofList r)).isSome | _ => false)
 
+/-- generated content (kept out of the op lines): `len` lower-case letters determined by `seed` -/
+def padBytes (seed len : Nat) : Bytes :=
+  (List.range len).map (fun i => 97 + (seed + 7 * i + i / 26) % 26)
+
 def parsePosByte (w : String) : Option (Nat × Nat) :=
   match w.splitOn ":" with
   | [a, b] => (match decNat? a, decNat? b with
@@ -137,6 +143,20 @@ def step (s : S) (ws : List String) : S × String :=
          | .ok doc => "ok " ++ toHexString doc
          | .error e => "err " ++ showSignErr e)
       | _, _, _ => "bad-op")
+  | ["docp", p, sd, n, sx] =>
+    (match hexArg p, decNat? sd, decNat? n, hexArg sx with
+     | some pre, some seed, some len, some suf =>
+       let b := pre ++ padBytes seed len ++ suf
+       ({ s with doc := b }, s!"ok {b.length}")
+     | _, _, _, _ => (s, "bad-op"))
+  | ["signp", p, sd, n, sx, a, t] =>
+    (s, match hexArg p, decNat? sd, decNat? n, hexArg sx, hexArg a, decInt? t with
+      | some pre, some seed, some len, some suf, some armored, true =>
+        (match sign tbl s.fetch (fun (pk : Bytes × Nat) => if pk.2 = 2 then some pk else none)
+            (fun _ _ => armored) (pre ++ padBytes seed len ++ suf) with
+         | .ok doc => s!"ok {doc.length}:{fnv doc}"
+         | .error e => "err " ++ showSignErr e)
+      | _, _, _, _, _, _ => "bad-op")
   | ["v", m, f] =>
     (s, match mutate s.doc m, parseFact f with
       | some d, some fact =>
